@@ -258,7 +258,7 @@ def jobs(tier, seed):
     D = {"*": [0, 2]}
     shapes = {
         "2sc": ([F([S(1, rich=True), S(1)])], {"out_dom": {"*": [0, 1]}}, False),
-        "outline-rule": ([F([S(1), O(1, [(2, [])]), R([S(1)])])], {"out_dom": {"*": [0, 1]}}, False),
+        "outline-rule": ([F([S(1), O(1, [(2, [])]), R([S(1)])]), F([S(1)])], {"out_dom": {"*": [0, 1]}, "stop": "sym"}, False),
         "hooks": ([F([S(1, tags=["t1"]), S(1)], tags=["t0"])], {"out_dom": {"*": [0, 1]}, "undef": False}, True),
         "cleanup": ([F([S(1), S(1)])], {"out_dom": {"*": [5, 6]}, "cleanups": True, "undef": False}, False),
         "select": ([F([S(1), O(1, [(2, [])])]), F([S(1)])], {"out_dom": {"*": [0, 1]}, "select": True, "undef": False}, False),
